@@ -104,10 +104,13 @@ CHECKS["C02"] = dict(
         "one StartOfMessage with text H and the C03 counters, released by the first idle poll 682 symbols after the last burst; any single "
         "burst with any polling never gives a StartOfMessage; 1..3 bursts starting NN combine to EndOfMessage and a three-burst trailer on a "
         "quiet channel yields exactly one message, at the first burst (fast EOM); a trailer that follows the header with no voice gap, all six "
-        "bursts heard, still gives exactly StartOfMessage then EndOfMessage. The statements are also instantiated at random parameters and "
+        "bursts heard, still gives exactly StartOfMessage then EndOfMessage; ANY two header bursts followed (after the hold) by two or three "
+        "trailer bursts, and three header bursts followed by two, give exactly StartOfMessage then EndOfMessage (with C01's theorem the whole "
+        "{2,3} x {2,3} loss matrix with a voice gap). The statements are also instantiated at random parameters and "
         "compared with the real Assembler on every run (a test of the statements). The full statement is refuted on the faithful model for two "
-        "history classes (F2, F8, F9: witness lemmas, replayed on the implementation) which are known findings. Partial: trailer-after-header "
-        "interleavings and junk after the header are covered by the abstract-combine form of the theorem plus correspondence, not by a closed theorem.",
+        "history classes (F2, F8, F9: witness lemmas, replayed on the implementation) which are known findings. Partial: lossy "
+        "interleavings without a voice gap (other than F2's class) and junk after the header are covered by the abstract-combine form of the theorems plus "
+        "correspondence, not by a closed theorem.",
    note=ASM_NOTE,
    technique="Coq scenario proofs (symbolic times/contents, macro-step lemmas) + refuted-witness lemmas + assembler/receiver differential correspondence",
    ref="§5 C02, §11")
